@@ -14,7 +14,7 @@ closes that link from the printing side.
 
 `Print.printPattern f a` (`RegressModel/Spec/Print.lean`) is a total, canonical printer from the ES AST
 to pattern text.  **`parse_print`**: for every flags `f` and every AST `a` with printable names
-(`lexOK`) and pairwise different group names (`distinctNames`), if `toIR f a = .ok r` then the parser model
+(`lexOK`) and without conflicting duplicate group names (`noDup`), if `toIR f a = .ok r` then the parser model
 maps the printed text to the same regex: `Parse.parse (printPattern f a) (irFlags f) = .ok r`.  So for the
 text `printPattern f a` *every* step from text to result is a theorem
 (`printed_pattern_correct_pk` / `printed_pattern_correct_bt`).
@@ -29,14 +29,32 @@ C class escapes, `\p{…}`, legacy / `u`-mode brackets; D `v`-mode class sets wi
 
 * `lexOK a`: group names are identifiers of valid code points (the printer prints them raw), property
   names are packed ASCII names (`Packed.nameOfBytes` of letters, digits, `_`).
-* `distinctNames a`: no two groups have the same name.  (ES allows duplicates in different alternatives;
-  `toIR` does not model the parser's duplicate check — `check_duplicate_conflicts` — so for an AST with two
-  groups of the same name in one alternative `toIR` succeeds where the parser reports
-  "Duplicate capture group name".  The round trip is stated without duplicates.)
+* `noDup a`: two groups with the same name are in different alternatives of a common disjunction (ES2025
+  duplicate named groups).  This is the specification's early error: it follows from
+  `ES.groupNames a = .ok _` (`noDup_of_groupNames`).  It cannot be dropped: `toIR` does not model the
+  parser's duplicate check (`check_duplicate_conflicts`), so for `/(?<a>x)(?<a>y)/` `toIR` succeeds where
+  the parser — model and real engine — reports "Duplicate capture group name" (example below).  The proof
+  follows the alternative paths that `collect_named_group_locations` records
+  (`Proofs/Lemmas/RoundTripPaths*.lean`).
 * `toIR f a = .ok r`: the AST is lowerable (bounds in order and below `usize::MAX`, back-references in
   range, names resolvable, limits respected, classes of the kind the flags select).
 * in the corollaries additionally: `Lower.supported` (the fragment of `lower_attempt_total`), `cpOK a`
   (literal code points `≤ 0x10FFFF`) and `maxOK r.node` (as in `Proofs/Certs.lean`).
+
+## Files
+
+`RoundTripBase` (hex / decimal / quantifier text), `RoundTripDefs` (the four statements per node and
+their generic implications), `RoundTripAtoms`, `RoundTripGroups`, `RoundTripNames`, `RoundTripMods`,
+`RoundTripProp`, `RoundTripClass`, `RoundTripVClass{,2,3}` (the constructor cases), `RoundTripDescent`
+(the induction), `RoundTripScan`, `RoundTripScanNode`, `RoundTripPrescan`, `RoundTripVClassScan`,
+`RoundTripPaths{,2,3,4,5}` (the capture-group pre-scan and its duplicate check), `RoundTripNF`
+(normal form, nesting depth), `RoundTripBound` (code points), `RoundTripTop` (`try_parse`).
+
+## Validation before proving
+
+`parse (printPattern f a) = toIR f a` was first checked by evaluation on 7 500 generated ASTs
+(`rvharness lower`, seeds 7 and 11: 0 differences), and for 399 of them the program the REAL engine
+compiles from the printed text (`rvharness probe`) is the program the Lean pipeline compiles from it.
 
 Only the direction "`toIR` succeeds ⇒ the parser returns the same regex" holds in general: e.g. for
 `[\p{Lu}]` without `u`/`v` the parser reads `\p` as an identity escape and succeeds while `toIR` reports
@@ -53,16 +71,16 @@ open Regress Regress.IR Regress.VM Regress.Lower Regress.Print
 theorem classAtoms (P : ES.Node) (T : Nat) : ClassAtoms P T :=
   ⟨atom_prop, atom_cls, atom_vcls⟩
 
-/-- **`parse_print`.**  For every flags `f` and AST `a` with printable, pairwise different names: if
+/-- **`parse_print`.**  For every flags `f` and AST `a` with printable names and no conflicting duplicates: if
 `toIR f a` is the regex `r` then the parser returns `r` on the printed text. -/
 theorem parse_print {f : ES.Flags} {a : ES.Node} {r : Regex}
-    (hlex : lexOK a = true) (hnames : distinctNames a = true) (hir : toIR f a = .ok r) :
+    (hlex : lexOK a = true) (hnames : noDup a = true) (hir : toIR f a = .ok r) :
     Parse.parse (printPattern f a) (irFlags f) = .ok r :=
-  parse_print_core classAtoms (clsScan _) (vclsScan _) hlex (by simpa [distinctNames] using hnames) hir
+  parse_print_core classAtoms (clsScan _) (vclsScan _) hlex hnames hir
 
-/-- The printable class: printable names, no duplicate names, lowerable. -/
+/-- The printable class: printable names, no conflicting duplicate names, lowerable. -/
 def printable (f : ES.Flags) (a : ES.Node) : Bool :=
-  lexOK a && distinctNames a && (toIR f a).toBool
+  lexOK a && noDup a && (toIR f a).toBool
 
 /-- **`parse_print_iff`.**  On the printable class the parser on the printed text and `toIR` on the AST
 return the same regex. -/
@@ -77,6 +95,12 @@ theorem parse_print_iff {f : ES.Flags} {a : ES.Node} (hp : printable f a = true)
     constructor
     · intro h; cases h; rfl
     · intro h; cases h; rfl
+
+/-- `parse_print` for an AST that passes the specification's duplicate-name early error (`ES.groupNames`). -/
+theorem parse_print_of_groupNames {f : ES.Flags} {a : ES.Node} {r : Regex} {l : List (List Nat)}
+    (hlex : lexOK a = true) (hnames : ES.groupNames a = .ok l) (hir : toIR f a = .ok r) :
+    Parse.parse (printPattern f a) (irFlags f) = .ok r :=
+  parse_print hlex (noDup_of_groupNames hnames) hir
 
 /-- Every code point of the printed pattern is `≤ 0x10FFFF` (what `Proofs/Certs.lean` asks of a pattern). -/
 theorem printPattern_bound (f : ES.Flags) (a : ES.Node) (hc : cpOK a = true) (hl : lexOK a = true) :
@@ -97,6 +121,27 @@ theorem toIR_flags {f : ES.Flags} {a : ES.Node} {r : Regex} (h : toIR f a = .ok 
         · cases h; rfl
       · cases h; rfl
 
+/-- **The printed pattern compiles**: for a printable AST with code points `≤ 0x10FFFF` the pipeline
+`Regex::from_unicode` on the printed text returns a program (the same for every sufficient optimizer
+fuel). -/
+theorem printed_pattern_compiles {f : ES.Flags} {a : ES.Node} {r : Regex}
+    (hlex : lexOK a = true) (hnames : noDup a = true) (hcp : cpOK a = true) (hir : toIR f a = .ok r) :
+    ∃ prog, ∀ fuel, C07.compileFuel (printPattern f a) (irFlags f) ≤ fuel →
+      C07.compile fuel (printPattern f a) (irFlags f) = .ok prog := by
+  have hp := parse_print hlex hnames hir
+  rcases C07.compile_total (printPattern f a) (irFlags f) (printPattern_bound f a hcp hlex) with h | ⟨m, h⟩ | ⟨m, h⟩
+  · exact h
+  · have := h 0
+    simp only [C07.compile, hp] at this
+    split at this
+    · cases this
+    · split at this <;> cases this
+  · have := h 0
+    simp only [C07.compile, hp] at this
+    split at this
+    · cases this
+    · split at this <;> cases this
+
 section
 variable {f : ES.Flags} {a : ES.Node} {r : Regex} {prog : Prog} {ofuel : Nat} {inp : Input} {cs : List Nat}
 
@@ -106,7 +151,7 @@ the PikeVM model from the byte offset of `i`, returns exactly what the ECMAScrip
 prescribes for `a` at `i` — both fail, or both match with the same end and the same captures. -/
 theorem printed_pattern_correct_pk
     (hsup : supported (normalize a) (irFlags f) (normalize a) = true)
-    (hlex : lexOK a = true) (hnames : distinctNames a = true) (hcp : cpOK a = true)
+    (hlex : lexOK a = true) (hnames : noDup a = true) (hcp : cpOK a = true)
     (hir : toIR f a = .ok r) (hmax : E2E.maxOK r.node = true)
     (hc : C07.compile ofuel (printPattern f a) (irFlags f) = .ok prog)
     (ht : Utf8Text inp cs) (hiu : inp.unicode = (f.u || f.v))
@@ -140,7 +185,7 @@ executor; the capture ranges it reports (`Bt.capsOf`) are those of an IR state r
 specification's result. -/
 theorem printed_pattern_correct_bt
     (hsup : supported (normalize a) (irFlags f) (normalize a) = true)
-    (hlex : lexOK a = true) (hnames : distinctNames a = true) (hcp : cpOK a = true)
+    (hlex : lexOK a = true) (hnames : noDup a = true) (hcp : cpOK a = true)
     (hir : toIR f a = .ok r) (hmax : E2E.maxOK r.node = true)
     (hc : C07.compile ofuel (printPattern f a) (irFlags f) = .ok prog)
     (ht : Utf8Text inp cs) (hiu : inp.unicode = (f.u || f.v))
@@ -188,7 +233,7 @@ example : printPattern {} ex1 = pat! "(?<=a)(?<n>b|c)\\k<n>\\1{1,2}?" := by deci
 
 theorem ex1_printable : printable {} ex1 = true := by decide +kernel
 theorem ex1_lex : lexOK ex1 = true := by decide +kernel
-theorem ex1_names : distinctNames ex1 = true := by decide +kernel
+theorem ex1_names : noDup ex1 = true := by decide +kernel
 theorem ex1_cp : cpOK ex1 = true := by decide +kernel
 theorem ex1_sup : supported (normalize ex1) (irFlags {}) (normalize ex1) = true := by decide +kernel
 
@@ -311,13 +356,31 @@ example : ∃ r, toIR { u := true } ex3 = .ok r ∧
   | error e => rw [h] at hp; cases hp.2
   | ok r => exact ⟨r, rfl, parse_print hp.1.1 hp.1.2 h⟩
 
+/-- `/(?<d>a)\k<d>|(?:(?<d>b)|c(?<d>d))+/`: the same name in three different alternatives (ES2025 duplicate
+named groups), nested in a quantified group; `\k<d>` refers to all three. -/
+def ex4 : ES.Node :=
+  .alt [.cat [.group 1 (some [0x64]) (.char 0x61), .nref [0x64]],
+    .quant 1 none true (.alt [.group 2 (some [0x64]) (.char 0x62),
+      .cat [.char 0x63, .group 3 (some [0x64]) (.char 0x64)]])]
+
+example : printPattern {} ex4 = pat! "(?<d>a)\\k<d>|(?:(?<d>b)|c(?<d>d)){1,}" := by decide +kernel
+
+theorem ex4_printable : printable {} ex4 = true := by decide +kernel
+
+example : ∃ r, toIR {} ex4 = .ok r ∧ Parse.parse (printPattern {} ex4) (irFlags {}) = .ok r := by
+  have hp := ex4_printable
+  simp only [printable, Bool.and_eq_true] at hp
+  cases h : toIR {} ex4 with
+  | error e => rw [h] at hp; cases hp.2
+  | ok r => exact ⟨r, rfl, parse_print hp.1.1 hp.1.2 h⟩
+
 /-- Only one direction holds outside the printable class: `[\p{Lu}]` without `u`/`v` is accepted by the
 parser (`\p` is an identity escape there) but is not a valid AST for `toIR`. -/
 example : (toIR {} (.cls false [.prop false 0 (Packed.nameOfBytes [0x4C, 0x75])])).toBool = false ∧
     (Parse.parse (printPattern {} (.cls false [.prop false 0 (Packed.nameOfBytes [0x4C, 0x75])])) (irFlags {})).toBool
       = true := by decide +kernel
 
-/-- The hypothesis `distinctNames` cannot be dropped: `/(?<a>x)(?<a>y)/` lowers (`toIR` has no duplicate
+/-- The hypothesis `noDup` cannot be dropped: `/(?<a>x)(?<a>y)/` lowers (`toIR` has no duplicate
 check) but the parser rejects the printed text ("Duplicate capture group name"). -/
 example : (toIR {} (.cat [.group 1 (some [0x61]) (.char 0x78), .group 2 (some [0x61]) (.char 0x79)])).toBool = true ∧
     (Parse.parse (printPattern {} (.cat [.group 1 (some [0x61]) (.char 0x78), .group 2 (some [0x61]) (.char 0x79)]))
@@ -329,6 +392,8 @@ end Regress.RoundTrip
 
 #print axioms Regress.RoundTrip.parse_print
 #print axioms Regress.RoundTrip.parse_print_iff
+#print axioms Regress.RoundTrip.parse_print_of_groupNames
 #print axioms Regress.RoundTrip.printPattern_bound
+#print axioms Regress.RoundTrip.printed_pattern_compiles
 #print axioms Regress.RoundTrip.printed_pattern_correct_pk
 #print axioms Regress.RoundTrip.printed_pattern_correct_bt
